@@ -6,7 +6,8 @@ from typing import Any
 
 from sa.cfg import CFG
 from sa.report import Ctx
-from sa.srcmodel import FuncInfo, func_body, inline_locals
+from sa.srcmodel import (FuncInfo, fold_consts, func_body,
+                         inline_locals)
 
 MOD = "moptipyapps.dynamic_control.ode"
 
@@ -227,8 +228,9 @@ def _is_ok_rule(ctx: Ctx) -> None:
         for val, want in samples:
             taken = []
             for p_ in ps:
-                tv = [(_truth(inline_locals(fi.node, t), v, val), truth)
-                      for t, truth in p_.guards]
+                tv = [(_truth(fold_consts(repo, fi.module, inline_locals(
+                    fi.node, t)), v, val), truth)
+                    for t, truth in p_.guards]
                 if any(x is None for x, _ in tv):
                     why = why or "a test on the value is not understood"
                     taken = None
